@@ -57,18 +57,28 @@
                                        send_message, the two SEL loops): a regression stops the build here
 
   The two loops of pyipmi/sel.py (Model/SelXfer.lean, the model C12 uses) on an outcome script
-  (Model/SelScript.lean: one letter per Get / Delete SEL Entry, a letter with code 0 serves the bytes asked
-  for; the Reserve SEL requests have their own outcome list):
+  (Model/SelScript.lean: one letter per Get / Delete SEL Entry; a letter with code 0 is served - "completed
+  with k bytes, 0 ≤ k ≤ requested": in step with the letters run the caps `Caps` that cut the answer short,
+  `some 0` = `00 next-lo next-hi` without a record byte; the Reserve SEL requests have their own outcome list):
 
   * sel_entry_unbounded_as_shipped   — get_sel_entry, every request answered CAh: for EVERY fuel the pinned
                                        loop uses all of it (max_req_len FFh, 16 … 1, 0, −1 …): no bound exists
-  * sel_entry_bounded / _gives_up    — repaired: at most 33 requests whatever the outcome sequence (17 lengths
-                                       FFh, 16 … 1 and one request per byte); CAh for ever = RetryError after
-                                       exactly 17 requests
+  * sel_entry_unbounded_on_empty_answers — every variant WITHOUT the empty-answer stop (the pinned tree and the
+                                       tree after 8f8257b): every Get completed without a record byte - for
+                                       EVERY fuel, `fuel` identical requests (offset 0, FFh) and no result
+  * sel_entry_bounded / _bounded_any_peer — repaired: at most 33 requests whatever the outcome sequence, short
+                                       and empty answers included (17 lengths FFh, 16 … 1 and one request per
+                                       byte) - and against ANY peer whatsoever (any state, any answers)
+  * sel_entry_bounded_if_progress    — the empty answer is the only hole of the tree after 8f8257b: with ≥ 1 byte
+                                       in every completed answer that loop is bounded by 33 as well
+  * sel_entry_empty_answer_gives_up / sel_entry_gives_up — repaired: RetryError on the empty answer itself (one
+                                       request); CAh for ever = RetryError after exactly 17 requests
   * sel_get_and_clear_unbounded_as_shipped — every Get answered C5h: n rounds for every n, never a result
-  * sel_get_and_clear_bounded / _gives_up  — repaired: at most 35 requests per round of the budget, whatever
-                                       the Get / Delete / Reserve outcomes; C5h for ever = RetryError after
-                                       2·budget requests
+  * sel_get_and_clear_never_returns_on_empty_answers — without the empty-answer stop the retry budget (934f8f8)
+                                       is never consulted: one Reserve, then the inner read uses all its fuel
+  * sel_get_and_clear_bounded / _bounded_any_peer / _gives_up — repaired: at most 35 requests per round of the
+                                       budget, whatever the Get / Delete / Reserve outcomes (any peer); C5h for
+                                       ever = RetryError after 2·budget requests
   * sel_reserve_failure_propagates   — any peer, either variant: a Reserve SEL (first or renewal) answered with
                                        a completion code ends the call with that CompletionCodeError, nothing
                                        is sent after it
@@ -435,7 +445,8 @@ example : (runChunkR K 5 3 ⟨[.resCancelled, .resCancelled], .completed⟩ [.co
 
 /-- The variants the translators read from today's source - SDR reads (CAh branch repeats the read,
 each chunk reader renews its own store, the renewed id is handed on), send_message (only node-busy
-is repeated), the SEL loops (max_req_len has a floor, get-and-clear a retry budget) - are the
+is repeated), the SEL loops (max_req_len has a floor, get-and-clear a retry budget, an empty completed
+answer ends the read) - are the
 intended ones the theorems of this file are about.  A regression of any of them stops the build. -/
 theorem source_variant :
     PyIpmi.Gen.Loops11.variantRead = PyIpmi.Model.SdrXfer.Variant.intended ∧
@@ -452,77 +463,175 @@ open PyIpmi.FruXfer (Send World Xchg)
 /-- the constants of today's pyipmi/sel.py are the ones the lemmas are made for -/
 theorem sel_constants_ok : PyIpmi.Gen.Loops10.selCfg = stdCfg := by decide
 
-/-- the scripted SEL device: one 16-byte record, outcome script `s` for Get / Delete SEL Entry, outcome
-list `rp` for the Reserve SEL requests -/
-def selDev (s : Script) (rp : List Letter) : ScriptSel :=
-  ⟨s, rp, 0, [0x01, 0x00, 0x02, 1, 2, 3, 4, 0x20, 0, 4, 1, 0x10, 0x6F, 0xA1, 0xB2, 0xC3], 0xFFFF⟩
+/-- the scripted SEL device: one 16-byte record, outcome script `s` for Get / Delete SEL Entry, in step
+with it the caps `cp` (how many record bytes a completed Get carries at most: completed with k bytes,
+0 ≤ k ≤ requested), outcome list `rp` for the Reserve SEL requests -/
+def selDev (s : Script) (cp : Caps) (rp : List Letter) : ScriptSel :=
+  ⟨s, cp, rp, 0, [0x01, 0x00, 0x02, 1, 2, 3, 4, 0x20, 0, 4, 1, 0x10, 0x6F, 0xA1, 0xB2, 0xC3], 0xFFFF⟩
 
 /-- **As shipped, get_sel_entry never gives up.**  Every Get SEL Entry answered CAh ("cannot return
 number of requested data bytes"): whatever fuel the model is given, ALL of it is used - `fuel`
 requests and still no result; there is no bound.  (The length asked for goes FFh, 16, 15 … 1, 0 and
 then wraps: −1 is FFh on the wire.) -/
-theorem sel_entry_unbounded_as_shipped (fuel rid res : Nat) (rp : List Letter) :
-    (entryLoop stdCfg .asShipped scriptSend fuel ⟨selDev ⟨[], .other 0xCA⟩ rp, []⟩ res rid 255 []).out
+theorem sel_entry_unbounded_as_shipped (fuel rid res : Nat) (cp : Caps) (rp : List Letter) :
+    (entryLoop stdCfg .asShipped scriptSend fuel ⟨selDev ⟨[], .other 0xCA⟩ cp rp, []⟩ res rid 255 []).out
       = .pyError "nontermination" ∧
-    (entryLoop stdCfg .asShipped scriptSend fuel ⟨selDev ⟨[], .other 0xCA⟩ rp, []⟩ res rid 255 []).w.trace.length
+    (entryLoop stdCfg .asShipped scriptSend fuel ⟨selDev ⟨[], .other 0xCA⟩ cp rp, []⟩ res rid 255 []).w.trace.length
       = fuel := by
-  have := entry_spins fuel ⟨selDev ⟨[], .other 0xCA⟩ rp, []⟩ res rid 255 [] rfl
+  have := entry_spins fuel ⟨selDev ⟨[], .other 0xCA⟩ cp rp, []⟩ res rid 255 [] rfl
   simpa using this
 
 /-- the first 20 lengths on the wire, as shipped: FFh, 16 … 1, 0, FFh (= −1), FEh -/
-example : ((entryLoop stdCfg .asShipped scriptSend 20 ⟨selDev ⟨[], .other 0xCA⟩ [], []⟩ 5 1 255 []).w.trace.map
+example : ((entryLoop stdCfg .asShipped scriptSend 20 ⟨selDev ⟨[], .other 0xCA⟩ .full [], []⟩ 5 1 255 []).w.trace.map
       fun x => x.req.payload.getD 5 0) =
     [0xFF, 16, 15, 14, 13, 12, 11, 10, 9, 8, 7, 6, 5, 4, 3, 2, 1, 0, 0xFF, 0xFE] := by decide
 
-/-- **Repaired, bounded for every outcome sequence**: get_sel_entry ends after at most 33 requests
-(17 request lengths FFh, 16 … 1, and at worst one request per byte of the record), never out of fuel. -/
-theorem sel_entry_bounded (s : Script) (rp : List Letter) (rid res : Nat) :
-    (runEntry stdCfg .intended (selDev s rp) rid res).out ≠ .pyError "nontermination" ∧
-    (runEntry stdCfg .intended (selDev s rp) rid res).w.trace.length ≤ 33 := by
-  have := entry_bound .intended rfl entryFuel ⟨selDev s rp, []⟩ res rid 255 [] rfl (by simp)
-    (Or.inl ⟨rfl, rfl⟩) (by decide)
+/-- **Without the empty-answer stop, get_sel_entry never gives up on a device that "completes" every
+Get SEL Entry without a record byte** (`00 FF FF`: completion code 00h, next record id, no data) -
+the pinned tree and the tree after 8f8257b (`Variant.floored`) alike: whatever fuel the model is
+given, ALL of it is used on `fuel` IDENTICAL requests (offset 0, "entire record") and there is still
+no result.  Nothing is appended, so the offset never advances; nothing is refused, so the floor of
+the request length is never reached. -/
+theorem sel_entry_unbounded_on_empty_answers (v : Variant) (hv : v.emptyStop = false) (fuel rid res : Nat)
+    (rp : List Letter) :
+    (entryLoop stdCfg v scriptSend fuel ⟨selDev ⟨[], .completed⟩ .zero rp, []⟩ res rid 255 []).out
+      = .pyError "nontermination" ∧
+    (entryLoop stdCfg v scriptSend fuel ⟨selDev ⟨[], .completed⟩ .zero rp, []⟩ res rid 255 []).w.trace
+      = List.replicate fuel ⟨getReq res rid 0 255, [0, 0xFF, 0xFF]⟩ := by
+  have := entry_spins_empty v hv fuel ⟨selDev ⟨[], .completed⟩ .zero rp, []⟩ res rid 255 [] rfl rfl (by simp)
+  have e1 : wireByte (reqLen stdCfg 255 0) = 255 := by decide
+  have e2 : (selDev ⟨[], .completed⟩ .zero rp).next = 0xFFFF := rfl
+  refine ⟨this.1, ?_⟩
+  rw [this.2]
+  simp [e1, e2]
+
+/-- the tree after 8f8257b is such a variant: all 64 requests of the model's fuel are used, no result -/
+example : (runEntry stdCfg .floored (selDev ⟨[], .completed⟩ .zero []) 5 0).out = .pyError "nontermination" ∧
+    (runEntry stdCfg .floored (selDev ⟨[], .completed⟩ .zero []) 5 0).w.trace.length = 64 := by decide
+
+/-- **Repaired, bounded for every outcome sequence** - also when "completed" answers carry fewer bytes
+than asked for, or none: get_sel_entry ends after at most 33 requests (17 request lengths FFh,
+16 … 1, and at worst one request per byte of the record), never out of fuel.  Every answer is a step
+down of the length (CAh), at least one byte of progress, or the end of the call. -/
+theorem sel_entry_bounded (s : Script) (cp : Caps) (rp : List Letter) (rid res : Nat) :
+    (runEntry stdCfg .intended (selDev s cp rp) rid res).out ≠ .pyError "nontermination" ∧
+    (runEntry stdCfg .intended (selDev s cp rp) rid res).w.trace.length ≤ 33 := by
+  have := entry_bound_gen .intended rfl scriptSend _ (progress_any .intended rfl scriptSend) entryFuel
+    ⟨selDev s cp rp, []⟩ res rid 255 [] trivial (by simp) (Or.inl rfl) (by decide)
   have e33 : entryMeasure 255 [] = 33 := by decide
   refine ⟨this.1, ?_⟩
   have h := this.2.1
   rw [e33] at h
-  have h' : (entryLoop stdCfg .intended scriptSend entryFuel ⟨selDev s rp, []⟩ res rid ((255 : Nat) : Int) []).w.trace.length ≤ 33 := by
+  have h' : (entryLoop stdCfg .intended scriptSend entryFuel ⟨selDev s cp rp, []⟩ res rid ((255 : Nat) : Int) []).w.trace.length ≤ 33 := by
     simpa using h
   exact h'
 
+/-- **Repaired, bounded against ANY peer** - any state type, any function from requests to responses
+(garbage, over-long answers, a different answer every time …): at most 33 requests, never out of fuel. -/
+theorem sel_entry_bounded_any_peer {σ : Type} (send : Send σ) (dev : σ) (rid res : Nat) :
+    (getSelEntry stdCfg .intended send ⟨dev, []⟩ rid res).out ≠ .pyError "nontermination" ∧
+    (getSelEntry stdCfg .intended send ⟨dev, []⟩ rid res).w.trace.length ≤ 33 := by
+  have := entry_bound_gen .intended rfl send _ (progress_any .intended rfl send) entryFuel
+    ⟨dev, []⟩ res rid 255 [] trivial (by simp) (Or.inl rfl) (by decide)
+  have e33 : entryMeasure 255 [] = 33 := by decide
+  refine ⟨this.1, ?_⟩
+  have h := this.2.1
+  rw [e33] at h
+  have h' : (entryLoop stdCfg .intended send entryFuel ⟨dev, []⟩ res rid ((255 : Nat) : Int) []).w.trace.length ≤ 33 := by
+    simpa using h
+  exact h'
+
+/-- **The empty answer is the ONLY hole of the tree after 8f8257b**: when every completed answer
+carries at least one byte (`cp.Positive`; short answers allowed), the loop WITHOUT the empty-answer
+stop is bounded by the same 33 requests, whatever the outcome sequence. -/
+theorem sel_entry_bounded_if_progress (s : Script) (cp : Caps) (hcp : cp.Positive) (rp : List Letter) (rid res : Nat) :
+    (runEntry stdCfg .floored (selDev s cp rp) rid res).out ≠ .pyError "nontermination" ∧
+    (runEntry stdCfg .floored (selDev s cp rp) rid res).w.trace.length ≤ 33 := by
+  have := entry_bound_gen .floored rfl scriptSend _ (progress_script .floored) entryFuel
+    ⟨selDev s cp rp, []⟩ res rid 255 [] ⟨rfl, hcp⟩ (by simp) (Or.inl rfl) (by decide)
+  have e33 : entryMeasure 255 [] = 33 := by decide
+  refine ⟨this.1, ?_⟩
+  have h := this.2.1
+  rw [e33] at h
+  have h' : (entryLoop stdCfg .floored scriptSend entryFuel ⟨selDev s cp rp, []⟩ res rid ((255 : Nat) : Int) []).w.trace.length ≤ 33 := by
+    simpa using h
+  exact h'
+
+/-- **Repaired, the empty answer itself**: RetryError, and the request it answered was the only one. -/
+theorem sel_entry_empty_answer_gives_up (rp : List Letter) (rid res : Nat) :
+    (runEntry stdCfg .intended (selDev ⟨[], .completed⟩ .zero rp) rid res).out = .retryError ∧
+    (runEntry stdCfg .intended (selDev ⟨[], .completed⟩ .zero rp) rid res).w.trace.length = 1 := by
+  have := entry_empty_gives_up .intended rfl 63 ⟨selDev ⟨[], .completed⟩ .zero rp, []⟩ res rid
+    ((stdCfg.entire : Nat) : Int) [] rfl rfl (by simp)
+  simpa [runEntry, getSelEntry, entryFuel] using this
+
 /-- **Repaired, CAh for ever**: RetryError after exactly 17 requests. -/
-theorem sel_entry_gives_up (rp : List Letter) (rid res : Nat) :
-    (runEntry stdCfg .intended (selDev ⟨[], .other 0xCA⟩ rp) rid res).out = .retryError ∧
-    (runEntry stdCfg .intended (selDev ⟨[], .other 0xCA⟩ rp) rid res).w.trace.length = 17 := by
-  have := entry_gives_up .intended rfl ⟨selDev ⟨[], .other 0xCA⟩ rp, []⟩ rid res rfl
+theorem sel_entry_gives_up (cp : Caps) (rp : List Letter) (rid res : Nat) :
+    (runEntry stdCfg .intended (selDev ⟨[], .other 0xCA⟩ cp rp) rid res).out = .retryError ∧
+    (runEntry stdCfg .intended (selDev ⟨[], .other 0xCA⟩ cp rp) rid res).w.trace.length = 17 := by
+  have := entry_gives_up .intended rfl ⟨selDev ⟨[], .other 0xCA⟩ cp rp, []⟩ rid res rfl
   simpa [runEntry] using this
 
 /-- a device that serves one byte at a time is still read: FFh, 16 … 2 refused, then 16 × 1 byte -/
-example : (runEntry stdCfg .intended (selDev ⟨List.replicate 16 (.other 0xCA), .completed⟩ []) 1 7).out =
-      .ok ((selDev ⟨[], .completed⟩ []).entry, 0xFFFF) ∧
-    (runEntry stdCfg .intended (selDev ⟨List.replicate 16 (.other 0xCA), .completed⟩ []) 1 7).w.trace.length = 32 := by
+example : (runEntry stdCfg .intended (selDev ⟨List.replicate 16 (.other 0xCA), .completed⟩ .full []) 1 7).out =
+      .ok ((selDev ⟨[], .completed⟩ .full []).entry, 0xFFFF) ∧
+    (runEntry stdCfg .intended (selDev ⟨List.replicate 16 (.other 0xCA), .completed⟩ .full []) 1 7).w.trace.length = 32 := by
   decide
+
+/-- a device that TRUNCATES instead of answering CAh - three bytes per "completed" answer whatever is
+asked - is read correctly: six requests "entire record" at the offsets 0, 3 … 15 -/
+example : (runEntry stdCfg .intended (selDev ⟨[], .completed⟩ ⟨[], some 3⟩ []) 1 7).out =
+      .ok ((selDev ⟨[], .completed⟩ .full []).entry, 0xFFFF) ∧
+    ((runEntry stdCfg .intended (selDev ⟨[], .completed⟩ ⟨[], some 3⟩ []) 1 7).w.trace.map
+      fun x => (x.req.payload.getD 4 0, x.req.payload.getD 5 0)) =
+      [(0, 255), (3, 255), (6, 255), (9, 255), (12, 255), (15, 255)] := by decide
+
+/-- five bytes, CAh, two bytes, then nothing: RetryError at the fourth request (offset 7, 9 bytes asked) -/
+example : (runEntry stdCfg .intended (selDev ⟨[.completed, .other 0xCA, .completed], .completed⟩
+      ⟨[some 5, none, some 2], some 0⟩ []) 1 7).out = .retryError ∧
+    ((runEntry stdCfg .intended (selDev ⟨[.completed, .other 0xCA, .completed], .completed⟩
+      ⟨[some 5, none, some 2], some 0⟩ []) 1 7).w.trace.map
+      fun x => (x.req.payload.getD 4 0, x.req.payload.getD 5 0)) = [(0, 255), (5, 255), (5, 11), (7, 9)] := by decide
 
 /-- **As shipped, get_and_clear_sel_entry never gives up.**  Every Get SEL Entry answered C5h
 ("reservation cancelled"): n complete rounds - Reserve SEL, Get SEL Entry - for every n, and no result. -/
-theorem sel_get_and_clear_unbounded_as_shipped (n rid : Nat) :
-    (runGac stdCfg .asShipped n (selDev ⟨[], .resCancelled⟩ []) rid).out = .pyError "nontermination" ∧
-    (runGac stdCfg .asShipped n (selDev ⟨[], .resCancelled⟩ []) rid).w.trace.length = 2 * n := by
-  have := gac_spins .asShipped n ⟨selDev ⟨[], .resCancelled⟩ [], []⟩ rid rfl rfl
+theorem sel_get_and_clear_unbounded_as_shipped (n rid : Nat) (cp : Caps) :
+    (runGac stdCfg .asShipped n (selDev ⟨[], .resCancelled⟩ cp []) rid).out = .pyError "nontermination" ∧
+    (runGac stdCfg .asShipped n (selDev ⟨[], .resCancelled⟩ cp []) rid).w.trace.length = 2 * n := by
+  have := gac_spins .asShipped n ⟨selDev ⟨[], .resCancelled⟩ cp [], []⟩ rid rfl rfl
   simpa [runGac, gacExhausted, Variant.asShipped] using this
 
-/-- **Repaired, bounded for every outcome sequence** of Get / Delete SEL Entry and of Reserve SEL,
-every budget: at most 35 requests per round (Reserve, ≤ 33 Get, Delete), never out of fuel. -/
-theorem sel_get_and_clear_bounded (s : Script) (rp : List Letter) (retry rid : Nat) :
-    (runGac stdCfg .intended retry (selDev s rp) rid).out ≠ .pyError "nontermination" ∧
-    (runGac stdCfg .intended retry (selDev s rp) rid).w.trace.length ≤ 35 * retry := by
-  have := gac_bound .intended rfl rfl retry ⟨selDev s rp, []⟩ rid rfl
+/-- **Without the empty-answer stop the retry budget of get_and_clear_sel_entry (934f8f8) is never
+consulted** on a device that completes every Get SEL Entry without a record byte: whatever the budget
+(≥ 1), ONE Reserve SEL and then the inner get_sel_entry uses all its fuel; no result, no RetryError. -/
+theorem sel_get_and_clear_never_returns_on_empty_answers (v : Variant) (hv : v.emptyStop = false) (retry rid : Nat) :
+    (runGac stdCfg v (retry + 1) (selDev ⟨[], .completed⟩ .zero []) rid).out = .pyError "nontermination" ∧
+    (runGac stdCfg v (retry + 1) (selDev ⟨[], .completed⟩ .zero []) rid).w.trace.length = 1 + entryFuel := by
+  have := gac_never_returns_empty v hv retry ⟨selDev ⟨[], .completed⟩ .zero [], []⟩ rid rfl rfl rfl
   simpa [runGac] using this
 
+/-- **Repaired, bounded for every outcome sequence** of Get / Delete SEL Entry (short and empty answers
+included) and of Reserve SEL, every budget: at most 35 requests per round (Reserve, ≤ 33 Get,
+Delete), never out of fuel. -/
+theorem sel_get_and_clear_bounded (s : Script) (cp : Caps) (rp : List Letter) (retry rid : Nat) :
+    (runGac stdCfg .intended retry (selDev s cp rp) rid).out ≠ .pyError "nontermination" ∧
+    (runGac stdCfg .intended retry (selDev s cp rp) rid).w.trace.length ≤ 35 * retry := by
+  have := gac_bound_gen .intended rfl rfl scriptSend _ (progress_any .intended rfl scriptSend) retry
+    ⟨selDev s cp rp, []⟩ rid trivial
+  simpa [runGac] using this
+
+/-- **Repaired, bounded against ANY peer**, every budget. -/
+theorem sel_get_and_clear_bounded_any_peer {σ : Type} (send : Send σ) (dev : σ) (retry rid : Nat) :
+    (getAndClear stdCfg .intended send retry ⟨dev, []⟩ rid).out ≠ .pyError "nontermination" ∧
+    (getAndClear stdCfg .intended send retry ⟨dev, []⟩ rid).w.trace.length ≤ 35 * retry := by
+  have := gac_bound_gen .intended rfl rfl send _ (progress_any .intended rfl send) retry ⟨dev, []⟩ rid trivial
+  simpa using this
+
 /-- **Repaired, C5h for ever**: RetryError after `retry` rounds = 2·retry requests. -/
-theorem sel_get_and_clear_gives_up (retry rid : Nat) :
-    (runGac stdCfg .intended retry (selDev ⟨[], .resCancelled⟩ []) rid).out = .retryError ∧
-    (runGac stdCfg .intended retry (selDev ⟨[], .resCancelled⟩ []) rid).w.trace.length = 2 * retry := by
-  have := gac_spins .intended retry ⟨selDev ⟨[], .resCancelled⟩ [], []⟩ rid rfl rfl
+theorem sel_get_and_clear_gives_up (retry rid : Nat) (cp : Caps) :
+    (runGac stdCfg .intended retry (selDev ⟨[], .resCancelled⟩ cp []) rid).out = .retryError ∧
+    (runGac stdCfg .intended retry (selDev ⟨[], .resCancelled⟩ cp []) rid).w.trace.length = 2 * retry := by
+  have := gac_spins .intended retry ⟨selDev ⟨[], .resCancelled⟩ cp [], []⟩ rid rfl rfl
   simpa [runGac, gacExhausted, Variant.intended] using this
 
 /-- **Reserve SEL refused** (node busy, timeout, any other code; the first Reserve or a renewal after
@@ -552,14 +661,14 @@ theorem sel_unexpected_code_propagates {σ : Type} (v : Variant) (send : Send σ
   exact h2 x hm c hx
 
 /-- the second Reserve (the renewal after a C5h) answered node-busy: CompletionCodeError(C0h), 3 requests -/
-example : (runGac stdCfg .intended 5 (selDev ⟨[.resCancelled], .completed⟩ [.completed, .nodeBusy]) 1).out = .ccError 0xC0 ∧
-    (runGac stdCfg .intended 5 (selDev ⟨[.resCancelled], .completed⟩ [.completed, .nodeBusy]) 1).w.trace.length = 3 := by
+example : (runGac stdCfg .intended 5 (selDev ⟨[.resCancelled], .completed⟩ .full [.completed, .nodeBusy]) 1).out = .ccError 0xC0 ∧
+    (runGac stdCfg .intended 5 (selDev ⟨[.resCancelled], .completed⟩ .full [.completed, .nodeBusy]) 1).w.trace.length = 3 := by
   decide
 
 /-- one cancellation of the read, one of the delete, then success: reserve / read / delete three times -/
-example : (runGac stdCfg .intended 5 (selDev ⟨[.resCancelled, .completed, .resCancelled], .completed⟩ []) 1).out =
-      .ok (selDev ⟨[], .completed⟩ []).entry ∧
-    ((runGac stdCfg .intended 5 (selDev ⟨[.resCancelled, .completed, .resCancelled], .completed⟩ []) 1).w.trace.map
+example : (runGac stdCfg .intended 5 (selDev ⟨[.resCancelled, .completed, .resCancelled], .completed⟩ .full []) 1).out =
+      .ok (selDev ⟨[], .completed⟩ .full []).entry ∧
+    ((runGac stdCfg .intended 5 (selDev ⟨[.resCancelled, .completed, .resCancelled], .completed⟩ .full []) 1).w.trace.map
       fun x => x.req.cmd) = [0x42, 0x43, 0x42, 0x43, 0x46, 0x42, 0x43, 0x46] := by decide
 
 end sel
